@@ -1,4 +1,4 @@
-import HdVerif.Proofs.SegTiles
+import HdVerif.Proofs.SegTilesTie
 import HdVerif.Generated.T21
 /-! # C01  Segmentation masks survive encode, write and read unchanged
 
@@ -576,6 +576,14 @@ theorem C01_roundtrip_tiled (codec : Option Codec) (hcodec : ∀ c, codec = some
           ((out[(r / tr) * tilesAlong C tc + c / tc]?.bind (·[j]?)).bind (·[(r % tr) * tc + c % tc]?))
             = some (e.getD (r * C + c) 0) :=
   tiled_roundtrip codec hcodec R C tr tc htr htc t segs mfv omt m arr ov hcm hcs o hb
+
+/-- (10e) **Bridge for (10d)** (T6, T7b): the tiles `tileMask` cuts by plain list arithmetic (`tilesOf`) are exactly what the
+source's own functions produce, as C04 models them from the regenerated expressions: `get_tile_array` (bounds, padding:
+`Gen.tileArrayBounds`, T6) at every offset `compute_tile_positions_per_frame` lists (tile counts: `Gen.tilesPerAxisFloor`,
+T7b), in that order, each flattened row-major -- for every matrix size, tile size and pixel type. -/
+theorem tiles_are_get_tile_array {α} (z : α) (R C tr tc : Nat) (hR : 1 ≤ R) (hC : 1 ≤ C) (htr : 1 ≤ tr) (htc : 1 ≤ tc)
+    (px : List α) : tilesViaSource z R C tr tc px = .ok (tilesOf z R C tr tc px) :=
+  tilesViaSource_eq z R C tr tc hR hC htr htc px
 
 /-- non-vacuity of (10d): a 3 × 5 LABELMAP matrix with labels 3 and 300 in 2 × 2 tiles (six tiles, edge tiles padded, three
 tiles empty and omitted) is accepted: frames for tiles 0, 2 and 3 ... -/
